@@ -93,6 +93,9 @@ def cview(v):
 # ----------------------------------------------------------------------------
 # JSON <-> numpy
 # ----------------------------------------------------------------------------
+_LIVE = {}          # objects kept alive within ONE sequence (prelude calls + the judged call)
+
+
 def np_dtype(fields):
     import numpy as np
     return np.dtype([(f["name"], f["type"], tuple(f["sub"])) if f["sub"] else (f["name"], f["type"])
@@ -103,6 +106,16 @@ def to_np(j, written=False):
     """exact memory image -> numpy array with the requested memory layout (written: the call under test stores into
     this array, so it must stay writeable)"""
     import numpy as np
+    if j.get("obj") is not None:
+        # sequence dimension: the SAME ndarray object as in an earlier call of this sequence, its contents
+        # overwritten in place (a new object when the dtype or shape differs)
+        new = to_np(dict(j, obj=None, layout="C"), written=True)
+        old = _LIVE.get(("arr", j["obj"]))
+        if old is not None and old.dtype == new.dtype and old.shape == new.shape:
+            old[...] = new
+            return old
+        _LIVE[("arr", j["obj"])] = new
+        return new
     dt = np_dtype(j["fields"])
     shape = tuple(j["shape"])
     n = 1
@@ -161,7 +174,12 @@ def names_py(na):
     if f == "scalar":
         return np.str_(na["names"][0]) if na.get("npstr") else na["names"][0]
     if f == "list":
-        return [np.str_(x) for x in na["names"]] if na.get("npstr") else list(na["names"])
+        new = [np.str_(x) for x in na["names"]] if na.get("npstr") else list(na["names"])
+        if na.get("obj") is not None:      # the SAME list object as earlier in this sequence, mutated in place
+            old = _LIVE.setdefault(("names", na["obj"]), [])
+            old[:] = new
+            return old
+        return new
     if f == "tuple":
         return tuple(na["names"])
     return np.array(na["names"], dtype=str) if na["names"] else np.array([], dtype="U1")
@@ -320,7 +338,7 @@ def gen_form(r, names, allow_scalar=True):
 def gen_selection(r, nm):
     """(kind, list of names) — subsets and orderings, plus the malformed stream"""
     kind = r.choice(["subset", "subset", "subset", "subset-orig", "all", "single", "missing", "missing",
-                     "all-missing", "empty", "dup", "case"])
+                     "all-missing", "empty", "dup", "case", "overlong", "prefix"])
     if kind in ("subset", "subset-orig"):
         k = r.randrange(1, max(2, len(nm)))
         sel = r.sample(nm, min(k, len(nm)))
@@ -338,6 +356,19 @@ def gen_selection(r, nm):
         sel = r.sample(["nope", "q9", "w_"], r.randrange(1, 3))
     elif kind == "empty":
         sel = []
+    elif kind in ("overlong", "prefix"):
+        # a MISSING name that becomes an existing one when cut to the width of the existing names (overlong: one of
+        # the longest names + a suffix) or that is a proper prefix of an existing name
+        sel = r.sample(nm, r.randrange(0, len(nm)))
+        if kind == "overlong":
+            w = max(len(x) for x in nm)
+            bad = r.choice([x for x in nm if len(x) == w]) + r.choice(["_err", "2", "_", "x" * 9])
+        else:
+            cand = [x[:k] for x in nm for k in range(1, len(x)) if x[:k] not in nm]
+            bad = r.choice(cand) if cand else "q9"
+        if bad in nm:
+            bad = "q9"
+        sel.insert(r.randrange(0, len(sel) + 1), bad)
     elif kind == "dup":
         sel = r.sample(nm, r.randrange(1, len(nm) + 1))
         sel.insert(r.randrange(0, len(sel) + 1), r.choice(sel))
@@ -465,6 +496,277 @@ def dirty_heap(nbytes):
 # ----------------------------------------------------------------------------
 # entries
 # ----------------------------------------------------------------------------
+# ----------------------------------------------------------------------------
+# sequence / history dimension
+# ----------------------------------------------------------------------------
+# A case may carry "prelude": calls of the same entry point made first IN THE SAME PROCESS, results discarded; the
+# case itself is then judged as usual.  The model is a pure function of the arguments, so "model = implementation"
+# on the judged call is exactly "the answer does not depend on the calls made before".  The preludes are chosen so
+# that a cache keyed too coarsely collides: equal names / shapes / record size (dtype.str of a structured dtype is
+# only '|V<n>') with other element types or byte orders; the same array or name-list OBJECT with its contents
+# changed in place; an equal but distinct object; the other value of every keyword.
+_SAME_SIZE = {
+    1: ["|i1", "|u1", "|b1", "|S1"],
+    2: ["<i2", ">i2", "<u2", ">u2", "<f2", ">f2", "|S2"],
+    4: ["<i4", ">i4", "<u4", ">u4", "<f4", ">f4", "|S4", "<U1", ">U1"],
+    8: ["<i8", ">i8", "<u8", ">u8", "<f8", ">f8", "<c8", ">c8", "<U2", ">U2"],
+    12: ["<U3", ">U3"],
+    16: ["<c16", ">c16"],
+}
+
+
+def _arrays_of(c):
+    out = []
+    for k in ("arr", "a1", "a2"):
+        if isinstance(c.get(k), dict):
+            out.append(c[k])
+    out += list(c.get("arrs") or [])
+    return out
+
+
+def retype_case(r, c, how):
+    """deep copy of case c in which every field keeps its name, sub-array shape and ITEM SIZE (hence the record size)
+    but gets another element type ('type') or only the other byte order ('order'), or only new data ('data');
+    fields of the same name and type in different arrays of the case stay of one type"""
+    import copy
+    c2 = copy.deepcopy(c)
+    c2.pop("prelude", None)
+    tmap = {}
+    seen = {}
+    for a in _arrays_of(c2):
+        for f in a["fields"]:
+            seen.setdefault(f["name"], set()).add(f["type"])
+    for a in _arrays_of(c2):
+        n = nelem(a["shape"])
+        for f in a["fields"]:
+            key = (f["name"], f["type"])
+            if key not in tmap:
+                t = f["type"]
+                if len(seen[f["name"]]) > 1:
+                    pass          # one name with two types in the case (wider string): keep the pair as generated
+                elif how == "order" and t[0] in "<>":
+                    t = {"<": ">", ">": "<"}[t[0]] + t[1:]
+                elif how == "type":
+                    alts = [x for x in _SAME_SIZE.get(isize(t), []) if x != t]
+                    t = r.choice(alts) if alts else t
+                tmap[key] = t
+            f["type"] = tmap[key]
+            f["cells"] = [gen_cell(r, f["type"], f["sub"], "finite").hex() for _ in range(n)]
+    if isinstance(c2.get("plain"), dict):
+        pl = c2["plain"]
+        alts = [x for x in _SAME_SIZE.get(isize(pl["type"]), []) if x != pl["type"]]
+        if how != "data" and alts:
+            pl["type"] = r.choice(alts)
+        pl["cells"] = [gen_item(r, pl["type"], "finite").hex() for _ in pl["cells"]]
+    return c2
+
+
+HIST_KINDS = ["same-names-other-types", "same-names-other-order", "same-object-mutated", "equal-new-object",
+              "other-keywords", "names-object-mutated", "same-size-other-names"]
+
+
+def rename_case(r, c):
+    """deep copy of case c with every field renamed (consistently in all arrays, name selections and added
+    descriptors): same shapes, types, record size and data, other names"""
+    import copy
+    c2 = copy.deepcopy(c)
+    c2.pop("prelude", None)
+    suffix = r.choice(["_", "q", "0"])
+
+    def ren(n):
+        return n + suffix
+    for a in _arrays_of(c2):
+        for f in a["fields"]:
+            f["name"] = ren(f["name"])
+    if isinstance(c2.get("names"), dict):
+        c2["names"]["names"] = [ren(n) for n in c2["names"]["names"]]
+    for d in c2.get("add") or []:
+        d["name"] = ren(d["name"])
+    return c2
+
+
+def _regen_vals(r, c2):
+    """copy_fields_by_name: the values belong to the (retyped) fields they are assigned to"""
+    if "vals" not in c2 or not isinstance(c2.get("names"), dict):
+        return
+    fs = {f["name"]: f for f in c2["arr"]["fields"]}
+    nms = c2["names"]["names"]
+    new = []
+    for i, v in enumerate(c2["vals"]["vals"]):
+        f = fs.get(nms[i] if i < len(nms) else None, {"type": "<i4", "sub": []})
+        new.append(gen_dval(r, f["type"], c2["arr"]["shape"], f["sub"], forms=(v["form"],), native=v.get("native")))
+    c2["vals"]["vals"] = new
+
+
+def history_variants(r, c, kind):
+    """sequence versions of case c (c itself stays the judged call)"""
+    import copy
+    out = []
+    j = copy.deepcopy(c)
+    j.pop("prelude", None)
+    if kind == "names-object-mutated":
+        if not isinstance(j.get("names"), dict):
+            kind = "same-names-other-types"
+        elif j["names"]["form"] != "list":          # the same names as a list (a mutable object)
+            j["names"] = {"form": "list", "names": list(j["names"]["names"]), "npstr": False}
+    if kind in ("same-names-other-types", "same-names-other-order", "same-size-other-names"):
+        # both directions: (c' then c) and (c then c') — a cache filled by an EARLIER case of the run answers
+        # one of the two correctly
+        if kind == "same-size-other-names":
+            c2 = rename_case(r, c)
+        else:
+            c2 = retype_case(r, c, "type" if kind.endswith("types") else "order")
+            _regen_vals(r, c2)
+        j["prelude"] = [copy.deepcopy(c2)]
+        c2["prelude"] = [copy.deepcopy(j)]
+        c2["prelude"][0].pop("prelude", None)
+        c2["family"] = "seq:%s-rev" % kind
+        out.append(c2)
+    elif kind == "same-object-mutated":
+        p = retype_case(r, c, "data")
+        for cc in (p, j):
+            for i, a in enumerate(_arrays_of(cc)):
+                a["obj"] = "A%d" % i
+        j["prelude"] = [p]
+    elif kind == "equal-new-object":
+        j["prelude"] = [copy.deepcopy(j), retype_case(r, c, "type")]
+
+    elif kind == "other-keywords":
+        p = copy.deepcopy(j)
+        for k in ("strict", "getnames", "ignore_missing", "verbose"):
+            if k in p:
+                p[k] = not p[k]
+        for k in ("omit_strict", "omit_kw", "omit_defaults"):
+            p.pop(k, None)
+        if p.get("defaults") is not None:
+            p["defaults"] = None
+        j["prelude"] = [p, retype_case(r, p, "order")]
+    else:
+        p = copy.deepcopy(j)
+        nm = list(p["names"]["names"])
+        r.shuffle(nm)
+        p["names"]["names"] = nm[:max(1, len(nm) - 1)] if nm else ["zz9"]
+        p["names"]["obj"] = j["names"]["obj"] = "N"
+        j["prelude"] = [p]
+    j["family"] = "seq:%s" % kind
+    out.append(j)
+    return out
+
+
+def add_history(r, ctx, cs, frac=0.12):
+    """append sequence versions of a sample of the cases (long arrays left out)"""
+    base = [c for c in cs if not str(c.get("family", "")).startswith("long")]
+    extra = []
+    # the kinds are taken round-robin: every entry point gets every kind several times in every run
+    for i, c in enumerate(r.sample(base, min(len(base), max(12, int(frac * len(base)))))):
+        extra += history_variants(r, c, HIST_KINDS[i % len(HIST_KINDS)])
+    return cs + extra
+
+
+_PAST = {}          # entry name -> the cases already run in this process, in order
+
+
+def _impl_with_history(self, c):
+    _LIVE.clear()
+    try:
+        for p in c.get("prelude", []):
+            try:
+                self.impl1(p)
+            except Exception:       # noqa  (a prelude call only has to happen)
+                pass
+        return self.impl1(c)
+    finally:
+        _LIVE.clear()
+        _PAST.setdefault(self.name, []).append(c)
+
+
+_PROBE = r"""
+import importlib, json, sys
+import harness.props.C07 as m
+job = json.load(open(sys.argv[1]))
+ent = [e for e in m.ENTRIES if e.name == job["entry"]][0]
+want = json.dumps(job["out"], sort_keys=True, default=str)
+def fresh():
+    import esutil.numpy_util as nu
+    importlib.reload(nu)
+def run(seq):
+    fresh()
+    for p in seq:
+        try:
+            ent.impl(p)
+        except Exception:
+            pass
+    return json.dumps(json.loads(json.dumps(ent.impl(job["case"]), default=str)), sort_keys=True, default=str)
+res = {"self_contained": run([]) == want, "single": None, "all": False}
+if not res["self_contained"]:
+    past = job["past"]
+    for i in range(len(past) - 1, max(-1, len(past) - 121), -1):
+        if run([past[i]]) == want:
+            res["single"] = i
+            break
+    if res["single"] is None:
+        res["all"] = run(past) == want
+print("@@" + json.dumps(res))
+"""
+
+
+def make_self_contained(ent, c, o):
+    """A failing case whose failure depends on calls made EARLIER in this process would not reproduce from its replay.
+    Re-run it alone in a fresh process; when the answer differs, look for the earlier case (or take all of them) that
+    brings the failure back and store it in the case as its "prelude" (the dict is the one written to the replay)."""
+    import json
+    import subprocess
+    import sys
+    import tempfile
+    if c.get("prelude") or c.get("history_note"):
+        return
+    past = list(_PAST.get(ent.name, []))
+    for i, p in enumerate(past):
+        if p is c:
+            past = past[:i]
+            break
+    if not past:
+        return
+    with tempfile.NamedTemporaryFile("w", suffix=".json", delete=False) as f:
+        json.dump({"entry": ent.name, "case": c, "past": past, "out": o}, f, default=str)
+        path = f.name
+    try:
+        r = subprocess.run([sys.executable, "-c", _PROBE, path], cwd=core.VERIF, stdout=subprocess.PIPE,
+                           stderr=subprocess.PIPE, text=True, timeout=300)
+        line = [x for x in r.stdout.splitlines() if x.startswith("@@")]
+        res = json.loads(line[-1][2:]) if line else None
+    except Exception as e:  # noqa
+        res = None
+        c["history_note"] = "history probe failed: %s" % e
+    finally:
+        os.unlink(path)
+    if not res or res["self_contained"]:
+        return
+    import copy
+    if res["single"] is not None:
+        c["prelude"] = [copy.deepcopy(past[res["single"]])]
+        c["history_note"] = ("the failure depends on an EARLIER call in the same process: alone in a fresh process the call "
+                             "answers differently; the earlier case that brings it back is stored as prelude")
+    elif res["all"]:
+        c["prelude"] = copy.deepcopy(past)
+        c["history_note"] = ("the failure depends on the calls made earlier in the same process (no single one suffices): "
+                             "all %d earlier cases of this entry point are stored as prelude" % len(past))
+    else:
+        c["history_note"] = ("the failure depends on earlier calls in the same process but could not be reproduced from "
+                             "the earlier cases of this entry point alone (state shared between entry points?)")
+
+
+_PROBED = set()
+
+
+def _classify(self, c, o, v):
+    # the runner reports the first (smallest) failing case of an entry point: only that one is probed
+    if self.name not in _PROBED:
+        _PROBED.add(self.name)
+        make_self_contained(self, c, o)
+    return None
+
+
 class _Select(Entry):
     """common part of extract / remove / reorder"""
     strict_arg = True
@@ -501,7 +803,7 @@ class _Select(Entry):
             if self.strict_arg:
                 c["strict"], c["omit_strict"] = True, False
             cs.append(c)
-        return cs
+        return add_history(r, ctx, cs)
 
     def nontrivial(self, c, out):
         return rich(c["arr"]) and proper_nonprefix(c["arr"], c["names"]["names"])
@@ -519,7 +821,7 @@ class _Select(Entry):
 class Extract(_Select):
     name = "extract_fields"
 
-    def impl(self, c):
+    def impl1(self, c):
         import esutil.numpy_util as nu
         kw = {} if c.get("omit_strict") else {"strict": c["strict"]}
         return arr_out(lambda: self._call(c, lambda a, nm: nu.extract_fields(a, nm, **kw)))
@@ -535,7 +837,7 @@ class Remove(_Select):
     name = "remove_fields"
     strict_arg = False
 
-    def impl(self, c):
+    def impl1(self, c):
         import esutil.numpy_util as nu
         return arr_out(lambda: self._call(c, lambda a, nm: nu.remove_fields(a, nm)))
 
@@ -549,7 +851,7 @@ class Remove(_Select):
 class Reorder(_Select):
     name = "reorder_fields"
 
-    def impl(self, c):
+    def impl1(self, c):
         import esutil.numpy_util as nu
         kw = {} if c.get("omit_strict") else {"strict": c["strict"]}
         return arr_out(lambda: self._call(c, lambda a, nm: nu.reorder_fields(a, nm, **kw)))
@@ -588,7 +890,16 @@ class Add(Entry):
             k = r.choice([1, 1, 2, 2, 3, 4])
             add = [{"name": f["name"], "type": f["type"], "sub": f["sub"]}
                    for f in gen_fields(r, [0], k, avoid=have)]
-            kind = r.choice(["new", "new", "new", "new", "existing", "dup-in-add"])
+            kind = r.choice(["new", "new", "new", "new", "existing", "dup-in-add", "new-overlong", "new-prefix"])
+            if kind in ("new-overlong", "new-prefix"):
+                w = max(len(x) for x in have)
+                if kind == "new-overlong":
+                    nn = r.choice([x for x in have if len(x) == w]) + r.choice(["_err", "2", "_"])
+                else:
+                    cand = [x[:k] for x in have for k in range(1, len(x)) if x[:k] not in have]
+                    nn = r.choice(cand) if cand else "q9"
+                if nn not in have and nn not in [d["name"] for d in add]:
+                    add[r.randrange(len(add))]["name"] = nn
             if kind == "existing":
                 add[r.randrange(len(add))]["name"] = r.choice(have)
             elif kind == "dup-in-add":
@@ -623,7 +934,7 @@ class Add(Entry):
                 c["defaults"] = {"form": "list", "vals": [gen_dval(r, d["type"], arr["shape"], d["sub"], forms=("scalar", "row"))
                                                           for d in add]}
             cs.append(c)
-        return cs
+        return add_history(r, ctx, cs)
 
     @staticmethod
     def _norm(c):
@@ -634,7 +945,7 @@ class Add(Entry):
             out.append({"name": d["name"], "type": np.dtype(d["type"]).str, "sub": d["sub"]})
         return out
 
-    def impl(self, c):
+    def impl1(self, c):
         import numpy as np
         import esutil.numpy_util as nu
 
@@ -702,6 +1013,12 @@ class Combine(Entry):
                 a = gen_array(r, ctx, shape=list(shape), nf=r.choice([1, 1, 2, 3]), avoid=used)
                 used += [f["name"] for f in a["fields"]]
                 arrs.append(a)
+            if kind == "same" and k >= 2 and r.random() < 0.25:
+                kind = "same-prefix-names"
+                src = arrs[0]["fields"][-1]["name"]
+                nn = src + r.choice(["_err", "2", "_"]) if r.random() < 0.6 or len(src) < 2 else src[:-1]
+                if nn not in used:
+                    arrs[1]["fields"][0]["name"] = nn
             if kind == "empty":
                 arrs = []
             elif kind == "size-differs" and k >= 2:
@@ -727,9 +1044,9 @@ class Combine(Entry):
             a1 = gen_long_array(r, ctx)
             a2 = gen_long_array(r, ctx, avoid=[f["name"] for f in a1["fields"]], n=a1["shape"][0])
             cs.append({"arrs": [a1, a2], "container": "list", "family": "long/%d" % a1["shape"][0]})
-        return cs
+        return add_history(r, ctx, cs)
 
-    def impl(self, c):
+    def impl1(self, c):
         import esutil.numpy_util as nu
         def f():
             arrs = [to_np(a) for a in c["arrs"]]
@@ -794,9 +1111,9 @@ class Copy(Entry):
                 fs.append({"name": "own_", "type": "<i2", "sub": [], "cells": ["0700"] * n})
             cs.append({"a1": a1, "a2": {"shape": [n], "layout": r.choice(["C", "strided", "reversed"]), "fields": fs},
                        "family": "long/%d" % n})
-        return cs
+        return add_history(r, ctx, cs)
 
-    def impl(self, c):
+    def impl1(self, c):
         import esutil.numpy_util as nu
 
         def f():
@@ -860,9 +1177,9 @@ class CopyByName(Entry):
             v = gen_dval(r, f["type"], arr["shape"], f["sub"], forms=("scalar", "row", "full"), native=False)
             cs.append({"arr": arr, "names": gen_form(r, [f["name"]], allow_scalar=False), "vals": {"form": "list", "vals": [v]},
                        "family": "long/%d/%s" % (arr["shape"][0], v["form"])})
-        return cs
+        return add_history(r, ctx, cs)
 
-    def impl(self, c):
+    def impl1(self, c):
         import esutil.numpy_util as nu
         fs = {f["name"]: f for f in c["arr"]["fields"]}
 
@@ -924,9 +1241,9 @@ class Split(Entry):
             nm = [f["name"] for f in arr["fields"]]
             cs.append({"arr": arr, "names": gen_form(r, r.sample(nm, r.randrange(1, len(nm) + 1)), allow_scalar=False),
                        "getnames": False, "omit_kw": False, "family": "long/%d" % arr["shape"][0]})
-        return cs
+        return add_history(r, ctx, cs)
 
-    def impl(self, c):
+    def impl1(self, c):
         import numpy as np
         import esutil.numpy_util as nu
 
@@ -988,9 +1305,9 @@ class SplitPlain(Entry):
                 na["npstr"] = False
             cs.append({"plain": {"type": t, "shape": shape, "cells": cells}, "names": na, "getnames": r.random() < 0.5,
                        "family": "plain/%s" % (na["form"] if na else "None")})
-        return cs
+        return add_history(r, ctx, cs)
 
-    def impl(self, c):
+    def impl1(self, c):
         import numpy as np
         import esutil.numpy_util as nu
 
@@ -1144,9 +1461,9 @@ class Compare(Entry):
                 f["cells"][i] = bytes(b).hex()
             cs.append({"a1": a1, "a2": a2, "ignore_missing": True, "verbose": False, "omit_kw": False,
                        "family": "long-%s/%d" % (kind, n)})
-        return cs
+        return add_history(r, ctx, cs)
 
-    def impl(self, c):
+    def impl1(self, c):
         import esutil.numpy_util as nu
 
         def f():
@@ -1179,6 +1496,9 @@ class Compare(Entry):
 
 
 ENTRIES = [Extract(), Remove(), Reorder(), Add(), Combine(), Copy(), CopyByName(), Split(), SplitPlain(), Compare()]
+for _e in ENTRIES:
+    type(_e).impl = _impl_with_history
+    type(_e).classify = _classify
 
 TRUSTED = [
     "Coq 8.16.1 kernel (coqc, vm_compute; no native_compute); all C07 theorems are closed under the global context (no axioms)",
@@ -1215,7 +1535,11 @@ def run(ctx, replay=None):
                 "fields common and >= 2 elements; copy_fields_by_name: some but not all fields named; compare_arrays: >= 2 "
                 "fields and >= 2 elements; split_fields on a field-less array: never counted (outside the statement).  inputs "
                 "also as F-ordered, strided and recarray views; strict= / ignore_missing= left out in part of the calls "
-                "(documented defaults).  distinct by canonical JSON.")
+                "(documented defaults).  sequence dimension for every entry point (families seq:*): a judged call is preceded IN THE "
+                "SAME PROCESS by calls with equal names / shape / record size but other element types or byte orders (both "
+                "directions), equal types but other names, the same array or name-list OBJECT changed in place, an equal new "
+                "object, the other value of every keyword; the pure model is the history-free oracle.  missing names that are "
+                "over-long extensions or proper prefixes of existing names.  distinct by canonical JSON.")
     ctx.trusted = TRUSTED
     # 1. structural parameters of the nine functions from the source of the tree under check
     try:
